@@ -21,7 +21,7 @@ from inline_snapshot import snapshot
 __all__ = [
     "Color", "Perm", "Outer", "DC", "DCD", "DCN", "AT", "PM", "NT", "NTD", "NoCode", "NoCodeBox", "BadCopy", "RaisesEq",
     "Unorderable", "REC", "rec", "ok", "mark", "check_eq", "check_le", "check_ge", "check_in", "G", "set_g",
-    "Is", "outsource", "snapshot", "defaultdict", "ident", "Plain", "EvilEq", "snapshot_alias", "NP", "NPBool", "check_example", "EXAMPLE_SRC", "KW", "Tags", "FTags", "rec_value", "in_thread", "BadList",
+    "Is", "outsource", "snapshot", "defaultdict", "ident", "Plain", "EvilEq", "snapshot_alias", "NP", "NPBool", "check_example", "EXAMPLE_SRC", "KW", "Tags", "FTags", "rec_value", "in_thread", "BadList", "ATP", "DCI", "IPerm",
 ]
 
 defaultdict = collections.defaultdict
@@ -82,6 +82,21 @@ class KW:
     n: typing.Any
 
 
+@dataclasses.dataclass
+class DCI:
+    """a field that is not an argument of the constructor"""
+
+    x: typing.Any
+    y: typing.Any = dataclasses.field(init=False, default=2)
+
+
+class IPerm(enum.IntFlag):
+    """an IntFlag keeps bits that have no name: IPerm(12)"""
+
+    R = 1
+    W = 2
+
+
 @dataclasses.dataclass(frozen=True)
 class DCN:
     """hashable, usable as dict key / set element"""
@@ -95,6 +110,14 @@ class AT:
     p: typing.Any
     q: typing.Any = 3
     r: typing.Any = attrs.field(factory=list)
+
+
+@attrs.define
+class ATP:
+    """a private attribute: the argument of __init__ is called x"""
+
+    _x: typing.Any
+    z: typing.Any = 0
 
 
 class PM(pydantic.BaseModel):
